@@ -14,6 +14,7 @@ pred H(vt *Model) = len(vt.activeScreen)
 pred Wd(vt *Model) = len(vt.activeScreen[0])
 
 pred GridOK(g [][]cell, h int, w int) = len(g) == h && (forall r in 0..h: len(g[r]) == w)
+     && (forall r1 in 0..h: forall r2 in 0..h: r1 != r2 ==> backing(g[r1]) != backing(g[r2]))
 
 -- InvBase: everything except the upper bound of the cursor column (CHT exceeds it inside its loop and clamps after)
 pred Inv(vt *Model) = InvBase(vt) && vt.cursor.col < Wd(vt)
@@ -31,6 +32,24 @@ pred InvBase(vt *Model) =
   && (forall t in 0..len(vt.tabStop): vt.tabStop[t] >= 0)
   && 0 <= vt.primaryState.cursor.row && 0 <= vt.primaryState.cursor.col
   && 0 <= vt.altState.cursor.row && 0 <= vt.altState.cursor.col
+
+-- erase vocabulary (C06): rows are separate arrays (established by resize/ris), erased cells are blank in the current background
+pred RowsDistinct(vt *Model) =
+     forall r1 in 0..H(vt): forall r2 in 0..H(vt): r1 != r2 ==> backing(vt.activeScreen[r1]) != backing(vt.activeScreen[r2])
+pred Erased(c cell, bg vaxis.Color) =
+     c.Grapheme == "" && c.Width == 0 && c.Attribute == 0 && c.UnderlineStyle == 0 && c.Background == bg && c.Hyperlink == "" && c.HyperlinkParams == ""
+-- every cell of the active grid outside row r is as it was on entry
+pred OtherRowsKept(vt *Model, r int) =
+     forall r2 in 0..H(vt): r2 != r ==> (forall c in 0..Wd(vt): vt.activeScreen[r2][c] == old(vt.activeScreen[r2][c]))
+-- in row r, columns lo..hi-1 are erased with bg and all other columns are as on entry
+pred RowErased(vt *Model, r int, lo int, hi int, bg vaxis.Color) =
+     forall c in 0..Wd(vt): ((lo <= c && c < hi) ? Erased(vt.activeScreen[r][c], bg) : vt.activeScreen[r][c] == old(vt.activeScreen[r][c]))
+
+-- cells from (r0,c0) up to but excluding (r1,c1), in reading order, are erased with bg; all others are as on entry
+pred RegionErased(vt *Model, r0 int, c0 int, r1 int, c1 int, bg vaxis.Color) =
+     forall r in 0..H(vt): forall c in 0..Wd(vt):
+        (((r > r0 || (r == r0 && c >= c0)) && (r < r1 || (r == r1 && c < c1)))
+           ? Erased(vt.activeScreen[r][c], bg) : vt.activeScreen[r][c] == old(vt.activeScreen[r][c]))
 
 -- parameters as the parser delivers them (C02): inner lists non-empty, values non-negative
 pred ParamsWF(pm [][]int) =
@@ -92,10 +111,18 @@ func (vt *Model) ri()
 func (vt *Model) decsc()
   requires inv: Inv(vt)
   ensures C05_inv: Inv(vt)
+  -- DECSC (ESC 7): the cursor (position and rendition) is saved per screen; nothing else changes
+  ensures C06_saved: (vt.mode.smcup ? vt.altState.cursor : vt.primaryState.cursor) == vt.cursor
+  ensures C06_keep:  vt.cursor == old(vt.cursor) && vt.margin == old(vt.margin) && vt.lastCol == old(vt.lastCol)
 
 func (vt *Model) decrc()
   requires inv: Inv(vt)
   ensures C05_inv: Inv(vt)
+  -- DECRC (ESC 8): the cursor saved for this screen is restored (kept inside a screen that shrank since), deferred wrap cancelled
+  ensures C06_restored: (let sc = old(vt.mode.smcup ? vt.altState.cursor : vt.primaryState.cursor) in
+                         (vt.cursor.row == min(sc.row, H(vt) - 1) && vt.cursor.col == min(sc.col, Wd(vt) - 1)
+                          && vt.cursor.Style == sc.Style && vt.cursor.style == sc.style && !vt.lastCol))
+  ensures C06_keep: vt.margin == old(vt.margin)
 
 func (vt *Model) ris()
   requires inv: Inv(vt)
@@ -103,6 +130,8 @@ func (vt *Model) ris()
   loop 1 invariant grid: -1 <= rangeindex && len(vt.altScreen) == h && len(vt.primaryScreen) == h && h >= 1 && w >= 1
                       && h == old(H(vt)) && w == old(Wd(vt))
                       && (forall r in 0..rangeindex+1: len(vt.altScreen[r]) == w && len(vt.primaryScreen[r]) == w)
+                      && (forall r in 0..rangeindex+1: (backing(vt.altScreen[r]) < brk() && backing(vt.primaryScreen[r]) < brk()))
+                      && (forall r1 in 0..rangeindex+1: forall r2 in 0..rangeindex+1: r1 != r2 ==> (backing(vt.altScreen[r1]) != backing(vt.altScreen[r2]) && backing(vt.primaryScreen[r1]) != backing(vt.primaryScreen[r2])))
                       && (forall t in 0..len(vt.tabStop): vt.tabStop[t] >= 0)
                       && 0 <= vt.primaryState.cursor.row && 0 <= vt.primaryState.cursor.col
                       && 0 <= vt.altState.cursor.row && 0 <= vt.altState.cursor.col
@@ -209,12 +238,45 @@ func (vt *Model) ed(ps int)
   requires inv: Inv(vt)
   requires ps: ps >= 0
   ensures C05_inv: Inv(vt)
+  -- ED (ECMA-48 8.3.39): 0 = cursor to end of screen, 1 = start of screen to cursor (inclusive), 2 = whole screen; cursor does not move
+  ensures C06_ed0: ps == 0 ==> RegionErased(vt, old(vt.cursor.row), old(vt.cursor.col), H(vt), 0, old(vt.cursor.Background))
+  ensures C06_ed1: ps == 1 ==> RegionErased(vt, 0, 0, old(vt.cursor.row), old(vt.cursor.col) + 1, old(vt.cursor.Background))
+  ensures C06_ed2: ps == 2 ==> RegionErased(vt, 0, 0, H(vt), 0, old(vt.cursor.Background))
+  ensures C06_cursor: vt.cursor.row == old(vt.cursor.row) && vt.cursor.col == old(vt.cursor.col)
+  loop 1 invariant C06_part: ps == 0 && vt.cursor == old(vt.cursor) && vt.cursor.row <= r && r <= H(vt)
+  loop 1 invariant C06_erased: RegionErased(vt, vt.cursor.row, vt.cursor.col, r, 0, vt.cursor.Background)
+  loop 2 invariant C06_part: ps == 0 && vt.cursor == old(vt.cursor) && vt.cursor.row <= r && r < H(vt) && 0 <= col && col <= Wd(vt)
+  loop 2 invariant C06_erased: RegionErased(vt, vt.cursor.row, vt.cursor.col, r, col, vt.cursor.Background)
+  loop 3 invariant C06_part: ps == 1 && vt.cursor == old(vt.cursor) && 0 <= r && r <= vt.cursor.row + 1
+  loop 3 invariant C06_erased: RegionErased(vt, 0, 0, min(r, vt.cursor.row), (r > vt.cursor.row ? vt.cursor.col + 1 : 0), vt.cursor.Background)
+  loop 4 invariant C06_part: ps == 1 && vt.cursor == old(vt.cursor) && 0 <= r && r <= vt.cursor.row && 0 <= col && col <= Wd(vt) && (r == vt.cursor.row ==> col <= vt.cursor.col + 1)
+  loop 4 invariant C06_erased: RegionErased(vt, 0, 0, r, col, vt.cursor.Background)
+  loop 5 invariant C06_part: ps == 2 && vt.cursor == old(vt.cursor) && 0 <= r && r <= H(vt)
+  loop 5 invariant C06_erased: RegionErased(vt, 0, 0, r, 0, vt.cursor.Background)
+  loop 6 invariant C06_part: ps == 2 && vt.cursor == old(vt.cursor) && 0 <= r && r < H(vt) && 0 <= col && col <= Wd(vt)
+  loop 6 invariant C06_above: forall r2 in 0..r: forall c in 0..Wd(vt): Erased(vt.activeScreen[r2][c], vt.cursor.Background)
+  loop 6 invariant C06_row: forall c in 0..Wd(vt): (c < col ? Erased(vt.activeScreen[r][c], vt.cursor.Background) : vt.activeScreen[r][c] == old(vt.activeScreen[r][c]))
+  loop 6 invariant C06_below: forall r2 in r+1..H(vt): forall c in 0..Wd(vt): vt.activeScreen[r2][c] == old(vt.activeScreen[r2][c])
   loop * invariant inv: Inv(vt)
 
 func (vt *Model) el(ps int)
   requires inv: Inv(vt)
   requires ps: ps >= 0
   ensures C05_inv: Inv(vt)
+  -- EL (ECMA-48 8.3.41): 0 = cursor to end of line, 1 = start of line to cursor, 2 = whole line; cursor does not move
+  ensures C06_el: (let lo = (ps == 0 ? old(vt.cursor.col) : 0) in let hi = (ps == 1 ? old(vt.cursor.col) + 1 : Wd(vt)) in
+                   (ps <= 2 ? RowErased(vt, old(vt.cursor.row), lo, hi, old(vt.cursor.Background)) : RowErased(vt, old(vt.cursor.row), 0, 0, 0)))
+  ensures C06_rows: OtherRowsKept(vt, old(vt.cursor.row))
+  ensures C06_cursor: vt.cursor.row == old(vt.cursor.row) && vt.cursor.col == old(vt.cursor.col) && !vt.lastCol
+  loop 1 invariant C06_part: r == old(vt.cursor.row) && ps == 0 && old(vt.cursor.col) <= col && col <= Wd(vt) && vt.cursor == old(vt.cursor)
+  loop 1 invariant C06_erased: RowErased(vt, r, old(vt.cursor.col), col, old(vt.cursor.Background))
+  loop 1 invariant C06_others: OtherRowsKept(vt, r)
+  loop 2 invariant C06_part: r == old(vt.cursor.row) && ps == 1 && 0 <= col && col <= old(vt.cursor.col) + 1 && vt.cursor == old(vt.cursor)
+  loop 2 invariant C06_erased: RowErased(vt, r, 0, col, old(vt.cursor.Background))
+  loop 2 invariant C06_others: OtherRowsKept(vt, r)
+  loop 3 invariant C06_part: r == old(vt.cursor.row) && ps == 2 && 0 <= col && col <= Wd(vt) && vt.cursor == old(vt.cursor)
+  loop 3 invariant C06_erased: RowErased(vt, r, 0, col, old(vt.cursor.Background))
+  loop 3 invariant C06_others: OtherRowsKept(vt, r)
   loop * invariant inv: Inv(vt)
 
 func (vt *Model) il(ps int)
@@ -239,6 +301,13 @@ func (vt *Model) ech(ps int)
   requires inv: Inv(vt)
   requires ps: ps >= 0
   ensures C05_inv: Inv(vt)
+  -- ECH (ECMA-48 8.3.38): erase n characters from the cursor, not past the end of the line; cursor does not move
+  ensures C06_ech: RowErased(vt, old(vt.cursor.row), old(vt.cursor.col), min(old(vt.cursor.col) + (ps == 0 ? 1 : ps), Wd(vt)), old(vt.cursor.Background))
+  ensures C06_rows: OtherRowsKept(vt, old(vt.cursor.row))
+  ensures C06_cursor: vt.cursor.row == old(vt.cursor.row) && vt.cursor.col == old(vt.cursor.col) && !vt.lastCol
+  loop 1 invariant C06_part: vt.cursor == old(vt.cursor) && ps >= 1 && (old(ps) == 0 ? ps == 1 : ps == old(ps)) && i <= ps
+  loop 1 invariant C06_erased: RowErased(vt, vt.cursor.row, vt.cursor.col, vt.cursor.col + i, vt.cursor.Background)
+  loop 1 invariant C06_others: OtherRowsKept(vt, vt.cursor.row)
   loop * invariant inv: Inv(vt) && 0 <= i && vt.cursor.col + i <= Wd(vt)
 
 func (vt *Model) cbt(ps int)
@@ -380,6 +449,8 @@ func (vt *Model) resize(w int, h int)
               && 0 <= vt.altState.cursor.row && 0 <= vt.altState.cursor.col
   loop 1 invariant grid: -1 <= rangeindex && len(vt.altScreen) == h && len(vt.primaryScreen) == h
                       && (forall r in 0..rangeindex+1: len(vt.altScreen[r]) == w && len(vt.primaryScreen[r]) == w)
+                      && (forall r in 0..rangeindex+1: (backing(vt.altScreen[r]) < brk() && backing(vt.primaryScreen[r]) < brk()))
+                      && (forall r1 in 0..rangeindex+1: forall r2 in 0..rangeindex+1: r1 != r2 ==> (backing(vt.altScreen[r1]) != backing(vt.altScreen[r2]) && backing(vt.primaryScreen[r1]) != backing(vt.primaryScreen[r2])))
                       && (forall t in 0..len(vt.tabStop): vt.tabStop[t] >= 0)
                       && (len(primary) > 0 ==> GridOK(primary, old(H(vt)), old(Wd(vt))))
   loop 2 invariant inv: Inv(vt) && H(vt) == h && Wd(vt) == w && (len(primary) > 0 ==> GridOK(primary, old(H(vt)), old(Wd(vt))))
